@@ -73,7 +73,14 @@ func (p *Peers) Collect() (*WebRTCPeer, error) {
 	}
 	// Track new valid Snowflake in internal collection and pass along.
 	p.activePeers.PushBack(connection)
-	p.snowflakeChan <- connection
+	// The channel can be full of peers that closed while waiting to be popped.
+	// Do not wait for room once End has been called: End needs collectLock, and
+	// closes the new connection along with the other active peers.
+	select {
+	case p.snowflakeChan <- connection:
+	case <-p.melt:
+		return nil, fmt.Errorf("Snowflakes have melted")
+	}
 	return connection, nil
 }
 
